@@ -24,7 +24,14 @@ def stored_unindexed_key(c, k):
         if isinstance(x, dict): return any(kk == "rule" or kk.endswith("!") or hit(v) for kk, v in x.items())
         if isinstance(x, list): return any(hit(v) for v in x)
         return False
-    return any(o["op"] == "addFact" and hit(o.get("fact")) for o in c["ops"][:k])
+    def written(o):
+        # a fact written directly, or by a rule action (Env.AddFact template inside an addRule)
+        if o["op"] == "addFact": return [o.get("fact")]
+        if o["op"] == "addRule" and isinstance(o.get("rule"), dict):
+            acts = (o["rule"].get("actions") or []) + ([o["rule"]["action"]] if isinstance(o["rule"].get("action"), dict) else [])
+            return [(a.get("verif_tmpl") or {}).get("fact") for a in acts if isinstance(a, dict)]
+        return []
+    return any(hit(f) for o in c["ops"][:k] for f in written(o))
 
 KNOWN = [
     # property variable as key: the value below it is a term of the pattern, but values under the keys 'rule' and 'x!' of a fact are not indexed
